@@ -29,6 +29,9 @@ CHECKS["C06"] = ("exploration", "E1", "bounded exhaustive enumeration of produci
 CHECKS["C08"] = ("exploration", "E1", "bounded exhaustive enumeration of (value, target type) pairs with derived targets; multi-run relational oracle (conformance, identity, idempotence, round trip, abstraction via admits)",
   "For every source type of the structural core, every value (known, nulls at every depth, every one-position weakening to a refined unknown, marked) and every target (unrelated, or derived by kind change, element conversion, dropped/added/optional attributes, inserted placeholders): Convert / GetConversion / GetConversionUnsafe never panic; a success conforms to the target, carries no optional annotation and no placeholder the input resolved, is the identity on values of the target type, is idempotent, round-trips through the inverse when the forward conversion is safe, maps unknown/null to unknown/null whose refinements admit the conversion of every admitted input; safe implies unsafe and never fails for placeholder-free targets.",
   "trusted: TS model, admits(), semEq (RawEquals up to representation of unrefined unknowns); bound: structural core types depth<=2, <=16 values per type, one weakened position", "§3 C08")
+CHECKS["C09"] = ("exploration", "E1", "bounded exhaustive enumeration of type lists (length 1..4) in safe and unsafe mode, with every generated value pushed through the returned conversions",
+  "Every list of 1..3 types over a ~55-type core (70 thorough) and every quadruple over a 16-type sub-core: Unify/UnifyUnsafe never panic; on success one conversion per input; every conversion applied to every generated value of its input type never panics and yields a value of the unified type; for placeholder-free inputs a conversion is absent exactly when the input equals the result, safe-mode conversions never fail and are backed by GetConversion; equal inputs unify to themselves with no conversions; safe success implies unsafe success.",
+  "trusted: TS model and reference conformance; bound: core type list, <= 9 values per type", "§3 C09")
 NOT_YET = {}
 props = [json.loads(l) for l in open('/verif/properties.jsonl')]
 checks = []
